@@ -507,9 +507,10 @@ def exec (m : M) (cmd : String) : P (M × List String) := do
     let nInits ← pNat
     let repl ← pBool
     let forest ← pBool
+    let lip ← pBool
     let initL ← pList (pN m.sp.dims.length pInt)
     let warm ← pList (do let p ← pN m.sp.dims.length pInt; let y ← pF; pure (p, y))
-    let cfg : SmboCfg := { replacement := repl, trainsOnEmpty := forest, geo := m.sp.geo }
+    let cfg : SmboCfg := { replacement := repl, trainsOnEmpty := forest, lipschitz := lip, geo := m.sp.geo }
     let sm : SmboState := { X := warm.map (·.1), Y := warm.map (·.2) }
     pure ({ m with d := { nInits := nInits, bst := { smb := some (cfg, { initL := initL, sm := sm }) } }, call := none, warm := [], steps := #[], byCall := #[], pending := #[] }, ["ok"])
   | "bstate" =>
